@@ -14,6 +14,7 @@ pub struct C01 {
     n_table: u64,
     n_esc: u64,
     n_bytes: u64,
+    n_modes: u64,
 }
 
 /// parameter vectors of the exhaustive part: none, one, or two values from this set
@@ -229,8 +230,42 @@ impl C01 {
             (self.esc_case(k - self.n_table), "esc")
         } else if k < self.n_table + self.n_esc + self.n_bytes {
             (self.bytes_case(k - self.n_table - self.n_esc), "bytes")
+        } else if k < self.n_table + self.n_esc + self.n_bytes + self.n_modes {
+            (self.modes_case(k - self.n_table - self.n_esc - self.n_bytes), "modes")
         } else {
             (self.random_case(ctx, k), "random")
+        }
+    }
+
+    fn modes_case(&self, k: u64) -> StreamCase {
+        // every mode number 0..=2100 (ANSI modes, DEC private modes incl. the mouse modes 1000..1015 and 2004) set, reset,
+        // queried (DECRQM, with and without '?') and set twice, then ordinary output at the right margin and a report
+        // request, on a fresh and on a scrolled screen: the boundary values of the table never name a mode
+        let mut r = k;
+        let form = r % 6;
+        r /= 6;
+        let m = r % 2101;
+        r /= 2101;
+        let scrolled = r % 2 == 1;
+        let seq = match form {
+            0 => format!("\x1b[?{m}h"),
+            1 => format!("\x1b[?{m}l"),
+            2 => format!("\x1b[{m}h"),
+            3 => format!("\x1b[{m}l"),
+            4 => format!("\x1b[?{m}$p\x1b[{m}$p"),
+            _ => format!("\x1b[?{m};{m}h\x1b[?{m}$p"),
+        };
+        let mut bytes = seq.into_bytes();
+        bytes.extend_from_slice(b"\x1b[1;79Habcd\r\nef\x1b[6n\x1b[?6n\x1b[2;2H\x1b[K\x1b[5n\x1b[c\tg\x08h\n");
+        let prefix = if scrolled { (0..30).flat_map(|i| format!("line {i}\r\n").into_bytes()).collect() } else { vec![] };
+        StreamCase {
+            emu: "ansi".into(),
+            music: 0,
+            w: 80,
+            h: 25,
+            alloc: scrolled,
+            prefix,
+            bytes,
         }
     }
 }
@@ -280,7 +315,7 @@ pub fn exec_stream(ctx: &mut Ctx, case: &StreamCase, class: &str, check_geometry
         ctx.note(format!("decode threads did not finish within 60s in case {}", ctx.cur_case));
     }
     // fingerprint of observed behaviour
-    let head: Vec<u8> = case.bytes.iter().take(if class == "table" || class == "esc" || class == "bytes" { 12 } else { 3 }).copied().collect();
+    let head: Vec<u8> = case.bytes.iter().take(if class == "table" || class == "esc" || class == "bytes" || class == "modes" { 12 } else { 3 }).copied().collect();
     let fp = mix(
         mix(hash_str(&case.emu), (case.music as u64) << 40 | (case.alloc as u64) << 32 | (obs.kinds as u64) << 8 | (obs.scrollback_rows > 0) as u64),
         mix(crate::rng::hash_bytes(&head), (obs.panic.is_some() as u64) << 1 | (obs.errs > 0) as u64),
@@ -438,7 +473,7 @@ impl Prop for C01 {
         "C01"
     }
     fn rule(&self) -> &'static str {
-        "cases: (table) every CSI final 0x40..0x7E x 8 intermediates x parameter vectors of length <=2 over {absent,0,1,2,h-1,h,h+1,w,w+1,255,9999} x 8 state prefixes x 4 screens (x 4 music options in thorough), enumerated; (esc) ESC + every byte x prefixes x screens; (bytes) every byte, lead-in+byte, lead-in+X+byte for all 10 emulations on 3 states; (random) seeded grammar / raw / mutated / long streams on sizes 1..132 x 1..60 with scrollback. A case is one stream fed character by character through BufferParser::print_char under catch_unwind. distinct_nontrivial = distinct (emulation, music option, allocation, result-kind set {Err,Update,NoUpdate,SendString,Beep,PlayMusic,Resize}, scrollback present, stream head, panicked, returned-Err) fingerprints observed"
+        "cases: (table) every CSI final 0x40..0x7E x 8 intermediates x parameter vectors of length <=2 over {absent,0,1,2,h-1,h,h+1,w,w+1,255,9999} x 8 state prefixes x 4 screens (x 4 music options in thorough), enumerated; (esc) ESC + every byte x prefixes x screens; (bytes) every byte, lead-in+byte, lead-in+X+byte for all 10 emulations on 3 states; (modes) every mode number 0..=2100 set / reset / queried with and without '?' followed by output at the right margin and report requests, on a fresh and a scrolled screen; (random) seeded grammar / raw / mutated / long streams on sizes 1..132 x 1..60 with scrollback. A case is one stream fed character by character through BufferParser::print_char under catch_unwind. distinct_nontrivial = distinct (emulation, music option, allocation, result-kind set {Err,Update,NoUpdate,SendString,Beep,PlayMusic,Resize}, scrollback present, stream head, panicked, returned-Err) fingerprints observed"
     }
     fn meta(&self, _ctx: &Ctx) -> Value {
         json!({"floor_evaluations": 10000, "floor_distinct": 500, "plain_pass": "quick",
@@ -452,7 +487,8 @@ impl Prop for C01 {
         self.n_table = N_PARAM_VECS * 63 * 8 * N_PREFIXES * 4 * music;
         self.n_esc = 256 * N_PREFIXES * 4;
         self.n_bytes = 256 * 3 * 3 * 10;
-        self.n_table + self.n_esc + self.n_bytes + ctx.tier.pick(60_000, 3_000_000)
+        self.n_modes = 6 * 2101 * 2;
+        self.n_table + self.n_esc + self.n_bytes + self.n_modes + ctx.tier.pick(60_000, 3_000_000)
     }
     fn run_case(&mut self, ctx: &mut Ctx, k: u64) {
         let (case, class) = self.case_for(ctx, k);
